@@ -7,6 +7,7 @@ import (
 	"runtime"
 	"runtime/debug"
 	"strconv"
+	"strings"
 
 	"github.com/cloudwego/frugal"
 	fdebug "github.com/cloudwego/frugal/debug"
@@ -119,6 +120,43 @@ func (c *stepCtx) stepAllocs(st map[string]interface{}) string {
 	ty, holder, iface := c.arg(st)
 	calls := num(st, "calls", 100)
 	head := fmt.Sprintf(`"ev":"Allocs","ty":%q,"v":%d,"calls":%d,"obs":{`, ty, num(st, "v", 0), calls)
+	if gk := str(st, "grow", ""); gk != "" {
+		// every call sees a value larger than any before (one string field grows): nothing may be remembered per size
+		var fd *FieldD
+		for _, f := range defs[ty].Fields {
+			if f.Key == gk {
+				fd = f
+			}
+		}
+		if fd == nil {
+			return head + `"out":"err","cls":"harness","msg":[]}`
+		}
+		ifs := make([]interface{}, calls)
+		var keep []reflect.Value
+		for i := 0; i < calls; i++ {
+			h := newValue(ty, c.sc.Vals[num(st, "v", 0)])
+			h.Elem().Field(fd.idx).SetString(strings.Repeat("g", 300+7*i))
+			ifs[i] = h.Interface()
+			keep = append(keep, h)
+		}
+		big := make([]byte, 1<<20)
+		frugal.EncodedSize(iface) // the type has been used (with a small value)
+		frugal.EncodeObject(big, nil, iface)
+		old := debug.SetGCPercent(-1)
+		defer debug.SetGCPercent(old)
+		var m0, m1, m2 runtime.MemStats
+		runtime.ReadMemStats(&m0)
+		for i := 0; i < calls; i++ {
+			frugal.EncodedSize(ifs[i])
+		}
+		runtime.ReadMemStats(&m1)
+		for i := 0; i < calls; i++ {
+			frugal.EncodeObject(big, nil, ifs[i])
+		}
+		runtime.ReadMemStats(&m2)
+		runtime.KeepAlive(keep)
+		return head + fmt.Sprintf(`"out":"ok","n":0,"size_mallocs":%d,"enc_mallocs":%d}`, clamp(m1.Mallocs-m0.Mallocs), clamp(m2.Mallocs-m1.Mallocs))
+	}
 	buf := make([]byte, 1<<16)
 	n0, err0, pan0 := callEncode(buf, iface)
 	if pan0 == nil && err0 != nil {
